@@ -80,7 +80,17 @@ def reg_task(task):
     digests = set()
 
     def reset():
-        F._plugins.clear(); F._plugins.update({k: list(v) for k, v in saved[1].items()})
+        # restore the registries IN PLACE and through the module's own objects: rebinding F._plugins[k] to fresh lists would
+        # hide a defect in how the module shares or aliases them
+        for k in list(F._plugins):
+            if k in saved[1]:
+                F._plugins[k].clear()
+            else:
+                del F._plugins[k]
+        for k, v in saved[1].items():
+            for p_ in v:
+                if p_ not in F._plugins[k]:
+                    F._plugins[k].append(p_)
         F._contracts.clear(); F._contracts.update(saved[2])
         F._contract_interfaces.clear(); F._contract_interfaces.update(saved[3])
         F.opcode_aliases.clear(); F.opcode_aliases.update(saved[4])
